@@ -37,6 +37,8 @@ func runC07(p *Prog, r *Report) {
 	callersRebuiltRule(p, r, "C07.R8")
 	errPathPassThroughRule(p, r, "C07.R10")
 	errorPathAppendOnlyRule(p, r, "C07.R11")
+	pathExtendedPerComponentRule(p, r, "C07.R12")
+	pathParameterRule(p, r, "C07.R13")
 	r.Rule("C07.R9", "generated sub-methods are shared between the declared methods that need them, so they take the converter-level settings (wrapErrors, wrapErrorsUsing …), never those of the method that happens to create them first", 1)
 	subMethodCommonRule(p, r, "generator.(*generator).createSubMethod/Common")
 }
